@@ -981,11 +981,15 @@ var vC05FlagSets = []scriptflag.Flag{
 func VH_C05_Execute() {
 	vunwindCut(vparam("U", 8))
 	var usb []byte
-	switch vnondetLen("us-kind", 0, 8+2*vparam("LONG", 0)) {
-	case 9:
+	switch vnondetLen("us-kind", 0, 10+2*vparam("LONG", 0)) {
+	case 11:
 		usb = vlongScript(10000) // at the pre-Genesis script size limit
-	case 10:
+	case 12:
 		usb = vlongScript(10001) // one byte over it
+	case 9: // early success with something left on the alt stack: it must not reach the locking script
+		usb = []byte{bscript.Op1, bscript.OpTOALTSTACK, bscript.OpRETURN}
+	case 10:
+		usb = []byte{bscript.Op1, bscript.Op1, bscript.OpTOALTSTACK, bscript.OpRETURN}
 	case 1:
 		usb = []byte{bscript.Op1}
 	case 2:
@@ -1011,7 +1015,7 @@ func VH_C05_Execute() {
 	if vparam("LONG", 0) == 1 && vnondetBool("ls-long") {
 		lsb = vlongScript(10000 + vnondetLen("ls-over", 0, 1))
 	} else {
-		lsb = append(lsb, vnondetBytes("ls", 1, vparam("L", 1))...)
+		lsb = append(lsb, vnondetBytes("ls", 0, vparam("L", 1))...) // incl. the empty locking script
 	}
 	if vparam("TAIL", 0) == 1 {
 		lsb = append(lsb, [][]byte{{}, {bscript.Op1}, {bscript.OpDROP}, {bscript.OpENDIF}, {bscript.OpELSE, bscript.Op1, bscript.OpENDIF}, {bscript.OpVERIFY}, {bscript.OpRETURN}, {bscript.OpFROMALTSTACK}, {bscript.OpEQUAL}, {bscript.OpADD}}[vnondetLen("ls-tail", 0, 9)]...)
